@@ -806,6 +806,8 @@ class _Frame:
             return Opaque(f"{obj.tag}.{attr}")
         if isinstance(obj, Sink):
             return obj
+        if isinstance(obj, slice) and attr in ("start", "stop", "step"):
+            return getattr(obj, attr)
         if isinstance(obj, SimpleNamespace) or getattr(type(obj), "_xeval_open", False):
             if hasattr(obj, attr):
                 return getattr(obj, attr)
@@ -1216,6 +1218,8 @@ def _py_isinstance(obj, cls):
     cl = cls if isinstance(cls, tuple) else (cls,)
     for c in cl:
         if isinstance(c, ClassInfo):
+            if c.name == "FeArray" and isinstance(obj, XArray) and type(obj).__name__ == "XFe":
+                return True
             if isinstance(obj, EnumVal) and (obj.cls is c or c in obj.cls.mro):
                 return True
             if isinstance(obj, XObj) and c in obj.cls.mro:
